@@ -234,7 +234,10 @@ func init() {
 	bfsCheck("C01", "balance", func() Driver { return NewBalDriver("C01") }, 4, 6, 120, 1000, nil)
 	bfsCheck("C02", "balance-auth", func() Driver { return NewBalDriver("C02") }, 3, 5, 120, 1000, nil)
 	bfsCheck("C04", "container-registry", func() Driver { return NewCntDriver() }, 5, 7, 120, 1000, nil)
-	bfsCheck("C06", "netmap-tick", func() Driver { return NewTickDriver("C06") }, 5, 7, 120, 1000, nil)
+	multiBfsCheck("C06", []part{
+		{"netmap-tick", func() Driver { return NewTickDriver("C06") }, 5, 7, 120, 1000},
+		{"netmap-tick-bare", func() Driver { return NewTickDriver("C06bare") }, 4, 6, 40, 300},
+	}, nil)
 	bfsCheck("C07", "netmap-candidates", func() Driver { return NewTickDriver("C07") }, 12, 12, 120, 1000, nil)
 	bfsCheck("C10", "nns-lifecycle", func() Driver { return NewNNSDriver("C10") }, 4, 6, 120, 1000, nil)
 	bfsCheck("C11", "nns-auth", func() Driver { return NewNNSDriver("C11") }, 3, 5, 120, 1000, nil)
